@@ -647,6 +647,87 @@ inductive MExec (g : Cfg) (V : List Nat) (i0 : Nat) (s0 : MState) : Nat → MSta
   | step (i j : Nat) (s s' : MState) : MExec g V i0 s0 i s → MStep g i s s' →
       i ∈ V → j ∈ V → i ∈ (g.get j).prevs → MExec g V i0 s0 j s'
 
+/-- one step of the stack-traffic layer: from the in-facts of node `i` (true before) to its
+    out-facts (true after) -/
+theorem mstep_out_sound (g : Cfg) (V : List Nat) (hf : GoodFactsM g V) (i : Nat) (hi : i ∈ V) (s s' : MState)
+    (ihs : Sound s (g.get i).regIn) (ihm : MemSound s (g.get i).memIn) (ihe : s.entry 0 = 0#32)
+    (ihz : s.reg 0 = 0#32) (hstep : MStep g i s s') :
+    Sound s' (g.get i).regOut ∧ MemSound s' (g.get i).memOut ∧ s'.entry 0 = 0#32 ∧ s'.reg 0 = 0#32 := by
+  cases hstep with
+  | plain rd v hval hrd hp hmem =>
+    obtain ⟨hpl, wrd, hw, hwrd⟩ := plainValue_dest s (g.get i).node rd v hval
+    refine ⟨?_, ?_, by rw [hp.entry]; exact ihe, by rw [hp.zero]; exact ihz⟩
+    · exact sound_of_get_eq s' _ _ (hf.eqOut i hi)
+        (plain_transfer_sound (g.get i) _ _ s s' rd v hval hrd ihz ihe ihs hp)
+    · apply memSound_of_get_eq s' _ _ (hf.eqMemOut i hi)
+      have hc : (g.get i).node.callsTo = none := by
+        cases h : (g.get i).node <;> rw [h] at hpl <;> simp [Node.isPlain, Node.callsTo] at hpl ⊢
+      have hec : (g.get i).node.isEcall = false := by
+        cases h : (g.get i).node <;> rw [h] at hpl <;> simp [Node.isPlain, Node.isEcall] at hpl ⊢
+      have hne : (g.get i).node.isAnyEntry = false := by
+        cases h : (g.get i).node <;> rw [h] at hpl <;> simp [Node.isPlain, Node.isAnyEntry] at hpl ⊢
+      have hgm : (g.get i).node.genMemoryValue = none := by
+        cases h : (g.get i).node <;> rw [h] at hpl <;> simp [Node.isPlain, Node.genMemoryValue] at hpl ⊢
+      have hfe : (g.get i).node.isFunctionEntry = false := by
+        cases h : (g.get i).node <;> rw [h] at hpl <;> simp [Node.isPlain, Node.isFunctionEntry] at hpl ⊢
+      apply mem_silent_sound (g.get i) _ _ _ s s' hne hgm (hf.wfMemIn i) ihs ihm ihz ihe hp.entry hp.addr
+      · intro r hr
+        rw [ovSet_plain _ _ hc hec] at hr
+        have hk : (g.get i).node.killReg = plainKill rd := by
+          unfold Node.killReg plainKill; simp [hc, hfe, hw, hwrd]
+        rw [hk] at hr
+        by_cases hrr : r = rd
+        · subst hrr
+          by_cases hr0 : r = 0
+          · subst hr0; exact hp.zero
+          · exfalso
+            have : r ∈ RegSet.toList (plainKill r) := (mem_plainKill r r hrd).mpr ⟨rfl, hr0⟩
+            rw [mem_toList] at this
+            rw [this.2] at hr; simp at hr
+        · exact hp.keep r hrr
+      · intro off v _; rw [hmem]
+  | quiet hq hgm hreg hentry haddr hslots =>
+    refine ⟨?_, ?_, by rw [hentry]; exact ihe, by rw [hreg 0]; exact ihz⟩
+    · exact sound_of_get_eq s' _ _ (hf.eqOut i hi)
+        (quiet_transfer_sound (g.get i) _ _ s s' hq ihe ihs (fun r _ => hreg r) hentry haddr)
+    · apply memSound_of_get_eq s' _ _ (hf.eqMemOut i hi)
+      have hne : (g.get i).node.isAnyEntry = false := by
+        cases h : (g.get i).node <;> rw [h] at hq <;> simp [Node.isQuiet, Node.isAnyEntry] at hq ⊢
+      exact mem_silent_sound (g.get i) _ _ _ s s' hne hgm (hf.wfMemIn i) ihs ihm ihz ihe hentry haddr
+        (fun r _ => hreg r) hslots
+  | storeSp inst rs1 rs2 imm t cur hn hsp hcur hreg hentry haddr hstore =>
+    refine ⟨?_, ?_, by rw [hentry]; exact ihe, by rw [hreg 0]; exact ihz⟩
+    · have hq : (g.get i).node.isQuiet = true := by rw [hn]; rfl
+      exact sound_of_get_eq s' _ _ (hf.eqOut i hi)
+        (quiet_transfer_sound (g.get i) _ _ s s' hq ihe ihs (fun r _ => hreg r) hentry haddr)
+    · exact memSound_of_get_eq s' _ _ (hf.eqMemOut i hi)
+        (mem_store_sound (g.get i) _ _ _ s s' inst rs1 rs2 imm t cur hn hsp hcur (hf.wfMemIn i) ihs ihm
+          ihz ihe hentry haddr hreg hstore)
+  | load inst rd rs1 imm t hn hrd hne hbase hl =>
+    refine ⟨?_, ?_, by rw [hl.entry]; exact ihe, by rw [hl.zero]; exact ihz⟩
+    · exact sound_of_get_eq s' _ _ (hf.eqOut i hi)
+        (load_transfer_sound (g.get i) _ _ s s' inst rd rs1 imm t hn hrd hne hbase ihz ihe ihs ihm hl)
+    · apply memSound_of_get_eq s' _ _ (hf.eqMemOut i hi)
+      have hc : (g.get i).node.callsTo = none := by rw [hn]; rfl
+      have hec : (g.get i).node.isEcall = false := by rw [hn]; rfl
+      have hnent : (g.get i).node.isAnyEntry = false := by rw [hn]; rfl
+      have hgm : (g.get i).node.genMemoryValue = none := by rw [hn]; rfl
+      apply mem_silent_sound (g.get i) _ _ _ s s' hnent hgm (hf.wfMemIn i) ihs ihm ihz ihe hl.entry hl.addr
+      · intro r hr
+        rw [ovSet_plain _ _ hc hec] at hr
+        have hk : (g.get i).node.killReg = plainKill rd.val := by
+          rw [hn]; unfold Node.killReg plainKill; simp [Node.callsTo, Node.isFunctionEntry, Node.writesTo]
+        rw [hk] at hr
+        by_cases hrr : r = rd.val
+        · by_cases hr0 : r = 0
+          · subst hr0; exact hl.zero
+          · exfalso
+            have : r ∈ RegSet.toList (plainKill rd.val) := (mem_plainKill rd.val r hrd).mpr ⟨hrr, hrr ▸ hr0⟩
+            rw [mem_toList] at this
+            rw [this.2] at hr; simp at hr
+        · exact hl.keep r hrr
+      · intro off v _; rw [hl.mem]
+
 /-- **C01 (`exec_sound_mem`).** Along every execution through register-to-register
     instructions, branches and jumps, word stores through a stack pointer at a known position
     and word loads: every register claim *and every stack-slot claim* attached to the node
@@ -661,82 +742,7 @@ theorem exec_sound_mem (g : Cfg) (V : List Nat) (hf : GoodFactsM g V) (i0 : Nat)
   | step i j s s' _ hstep hi hj hedge ih =>
     obtain ⟨ihs, ihm, ihe, ihz⟩ := ih
     -- registers and memory after node i
-    have hboth : Sound s' (g.get i).regOut ∧ MemSound s' (g.get i).memOut ∧ s'.entry 0 = 0#32 ∧
-        s'.reg 0 = 0#32 := by
-      cases hstep with
-      | plain rd v hval hrd hp hmem =>
-        obtain ⟨hpl, wrd, hw, hwrd⟩ := plainValue_dest s (g.get i).node rd v hval
-        refine ⟨?_, ?_, by rw [hp.entry]; exact ihe, by rw [hp.zero]; exact ihz⟩
-        · exact sound_of_get_eq s' _ _ (hf.eqOut i hi)
-            (plain_transfer_sound (g.get i) _ _ s s' rd v hval hrd ihz ihe ihs hp)
-        · apply memSound_of_get_eq s' _ _ (hf.eqMemOut i hi)
-          have hc : (g.get i).node.callsTo = none := by
-            cases h : (g.get i).node <;> rw [h] at hpl <;> simp [Node.isPlain, Node.callsTo] at hpl ⊢
-          have hec : (g.get i).node.isEcall = false := by
-            cases h : (g.get i).node <;> rw [h] at hpl <;> simp [Node.isPlain, Node.isEcall] at hpl ⊢
-          have hne : (g.get i).node.isAnyEntry = false := by
-            cases h : (g.get i).node <;> rw [h] at hpl <;> simp [Node.isPlain, Node.isAnyEntry] at hpl ⊢
-          have hgm : (g.get i).node.genMemoryValue = none := by
-            cases h : (g.get i).node <;> rw [h] at hpl <;> simp [Node.isPlain, Node.genMemoryValue] at hpl ⊢
-          have hfe : (g.get i).node.isFunctionEntry = false := by
-            cases h : (g.get i).node <;> rw [h] at hpl <;> simp [Node.isPlain, Node.isFunctionEntry] at hpl ⊢
-          apply mem_silent_sound (g.get i) _ _ _ s s' hne hgm (hf.wfMemIn i) ihs ihm ihz ihe hp.entry hp.addr
-          · intro r hr
-            rw [ovSet_plain _ _ hc hec] at hr
-            have hk : (g.get i).node.killReg = plainKill rd := by
-              unfold Node.killReg plainKill; simp [hc, hfe, hw, hwrd]
-            rw [hk] at hr
-            by_cases hrr : r = rd
-            · subst hrr
-              by_cases hr0 : r = 0
-              · subst hr0; exact hp.zero
-              · exfalso
-                have : r ∈ RegSet.toList (plainKill r) := (mem_plainKill r r hrd).mpr ⟨rfl, hr0⟩
-                rw [mem_toList] at this
-                rw [this.2] at hr; simp at hr
-            · exact hp.keep r hrr
-          · intro off v _; rw [hmem]
-      | quiet hq hgm hreg hentry haddr hslots =>
-        refine ⟨?_, ?_, by rw [hentry]; exact ihe, by rw [hreg 0]; exact ihz⟩
-        · exact sound_of_get_eq s' _ _ (hf.eqOut i hi)
-            (quiet_transfer_sound (g.get i) _ _ s s' hq ihe ihs (fun r _ => hreg r) hentry haddr)
-        · apply memSound_of_get_eq s' _ _ (hf.eqMemOut i hi)
-          have hne : (g.get i).node.isAnyEntry = false := by
-            cases h : (g.get i).node <;> rw [h] at hq <;> simp [Node.isQuiet, Node.isAnyEntry] at hq ⊢
-          exact mem_silent_sound (g.get i) _ _ _ s s' hne hgm (hf.wfMemIn i) ihs ihm ihz ihe hentry haddr
-            (fun r _ => hreg r) hslots
-      | storeSp inst rs1 rs2 imm t cur hn hsp hcur hreg hentry haddr hstore =>
-        refine ⟨?_, ?_, by rw [hentry]; exact ihe, by rw [hreg 0]; exact ihz⟩
-        · have hq : (g.get i).node.isQuiet = true := by rw [hn]; rfl
-          exact sound_of_get_eq s' _ _ (hf.eqOut i hi)
-            (quiet_transfer_sound (g.get i) _ _ s s' hq ihe ihs (fun r _ => hreg r) hentry haddr)
-        · exact memSound_of_get_eq s' _ _ (hf.eqMemOut i hi)
-            (mem_store_sound (g.get i) _ _ _ s s' inst rs1 rs2 imm t cur hn hsp hcur (hf.wfMemIn i) ihs ihm
-              ihz ihe hentry haddr hreg hstore)
-      | load inst rd rs1 imm t hn hrd hne hbase hl =>
-        refine ⟨?_, ?_, by rw [hl.entry]; exact ihe, by rw [hl.zero]; exact ihz⟩
-        · exact sound_of_get_eq s' _ _ (hf.eqOut i hi)
-            (load_transfer_sound (g.get i) _ _ s s' inst rd rs1 imm t hn hrd hne hbase ihz ihe ihs ihm hl)
-        · apply memSound_of_get_eq s' _ _ (hf.eqMemOut i hi)
-          have hc : (g.get i).node.callsTo = none := by rw [hn]; rfl
-          have hec : (g.get i).node.isEcall = false := by rw [hn]; rfl
-          have hnent : (g.get i).node.isAnyEntry = false := by rw [hn]; rfl
-          have hgm : (g.get i).node.genMemoryValue = none := by rw [hn]; rfl
-          apply mem_silent_sound (g.get i) _ _ _ s s' hnent hgm (hf.wfMemIn i) ihs ihm ihz ihe hl.entry hl.addr
-          · intro r hr
-            rw [ovSet_plain _ _ hc hec] at hr
-            have hk : (g.get i).node.killReg = plainKill rd.val := by
-              rw [hn]; unfold Node.killReg plainKill; simp [Node.callsTo, Node.isFunctionEntry, Node.writesTo]
-            rw [hk] at hr
-            by_cases hrr : r = rd.val
-            · by_cases hr0 : r = 0
-              · subst hr0; exact hl.zero
-              · exfalso
-                have : r ∈ RegSet.toList (plainKill rd.val) := (mem_plainKill rd.val r hrd).mpr ⟨hrr, hrr ▸ hr0⟩
-                rw [mem_toList] at this
-                rw [this.2] at hr; simp at hr
-            · exact hl.keep r hrr
-          · intro off v _; rw [hl.mem]
+    have hboth := mstep_out_sound g V hf i hi s s' ihs ihm ihe ihz hstep
     obtain ⟨hout, hmout, hent, hzero⟩ := hboth
     refine ⟨?_, ?_, hent, hzero⟩
     · apply sound_of_get_eq s' _ _ (hf.eqIn j hj)
